@@ -328,8 +328,15 @@ def probe_optim(spec):
         r = {'kw': kw}
         try:
             seen.clear()
-            res = op.optimize(**kw)
-            if seen.get('constraints') is not None and 'translation' not in o and not kw.get('make_soft_problem'):
+            if kw.get('robust'):
+                # robust target over scaled / shifted copies of the cost vector; the reported value is documented to be that of the
+                # problem's own costs at the returned point
+                rs_ = np.random.RandomState(len(op.c) + int(kw['robust']))
+                smp = [op.c * f + rs_.randint(-4, 5, size=len(op.c)) / 8.0 for f in (0.5, 1.5, 0.75)][:int(kw['robust'])]
+                res = op.optimize(target='robust', samples=smp)
+            else:
+                res = op.optimize(**kw)
+            if seen.get('constraints') is not None and 'translation' not in o and not kw.get('make_soft_problem') and not kw.get('robust'):
                 o['translation'] = _dump_translation(seen)
         except Exception as e:
             r['solve'] = 'crash'
@@ -356,7 +363,7 @@ def probe_optim(spec):
         o['problem2'] = dump_problem(op)
         o['runs2'] = []
         for kw in opts.get('solvers', [{}]):
-            if kw.get('make_soft_problem'):
+            if kw.get('make_soft_problem') or kw.get('robust'):
                 continue
             r = {'kw': kw}
             try:
@@ -582,6 +589,22 @@ def probe_grid(spec):
     except Exception as e:
         o['prices_pass'] = False
         o['prices_error'] = repr(e)[:200]
+    # ... in every form a user may hold gridded data in: frames / series with the default index, an explicit integer or float index
+    o['prices_forms'] = {}
+    if tg.T >= 1:
+        base = {'a': np.arange(tg.T) * 0.375 - 1.0, 'b': np.cos(np.arange(tg.T))}
+        forms = {'frame, default index': lambda: pd.DataFrame(base),
+                 'frame, integer index': lambda: pd.DataFrame(base, index=np.arange(tg.T)),
+                 'frame, float index': lambda: pd.DataFrame(base, index=np.arange(tg.T, dtype=float)),
+                 'frame from concatenated parts': lambda: pd.concat([pd.DataFrame(base).iloc[:tg.T // 2], pd.DataFrame(base).iloc[tg.T // 2:]]),
+                 'dict of series': lambda: {k: pd.Series(v) for k, v in base.items()},
+                 'dict of lists': lambda: {k: list(v) for k, v in base.items()}}
+        for nm, mk in forms.items():
+            try:
+                pg = tg.prices_to_grid(mk())
+                o['prices_forms'][nm] = bool(len(pg) == tg.T and all(np.allclose(np.asarray(pg[k].values, float), base[k], rtol=0, atol=1e-12) for k in base))
+            except Exception as e:
+                o['prices_forms'][nm] = 'error: ' + repr(e)[:150]
     return o
 
 
